@@ -34,7 +34,13 @@ pub fn check_pair(schema_text: &str, doc_text: &str, label: &str, ctx: &mut Ctx)
     }
     // the antecedent "validates against the schema" must hold for the reference too
     match c17::reference_verdict(schema_text, doc_text) {
-        Ok((crate::refmodel::execvalid::Verdict::Valid, _)) => {}
+        Ok((crate::refmodel::execvalid::Verdict::Valid, rs)) => {
+            // what makes the antecedent depend on THIS schema: applications of built-in
+            // directives that only the schema's own re-definition allows, shared fragments
+            for c in c17::context_constructs(&rs, doc_text) {
+                ctx.class(format!("ctx:{}", c));
+            }
+        }
         _ => {
             ctx.class("apollo-valid|reference-not-valid");
             return ctx.skip("apollo validates the document but the reference does not call it valid");
